@@ -4,7 +4,7 @@
 usage: tools/import_round.py <src dir>:<id> ...        e.g. /tmp/mut3/C06/mutant/a:C06e"""
 import json, os, shutil, subprocess, sys
 HERE = os.path.dirname(os.path.dirname(os.path.abspath(__file__)))
-AUTHOR = ('independent sub-agent (third round: given only the property text, a scratch worktree and the one-paragraph summaries of the earlier '
+AUTHOR = ('independent sub-agent (round of import; third or fourth: given only the property text, a scratch worktree and the one-paragraph summaries of the earlier '
           'changes to avoid repeating them)')
 dirs = []
 for a in sys.argv[1:]:
